@@ -224,8 +224,13 @@ def run(F, R, tier):
         R.ob("vm-operand-order", "build_array copies stack[start..end] in ascending order", "ops::Range{start: start_index, end: end_index}" in t and "elements.push(self.stack[i].clone())" in t and ".rev()" not in t, t[:200], F.loc(ba))
     bm = F.fn("vm::interpreter::VM::build_map")
     if R.anchor("VM::build_map", bm):
-        t = H.render(H.body_of(bm))
-        R.ob("vm-operand-order", "build_map takes key = stack[i], value = stack[i + 1], i stepping by 2", "step_by(2)" in t and "let key = self.stack[i].clone()" in t and "let val = self.stack[(i + 1)].clone()" in t, t[:260], F.loc(bm))
+        nb = H.unlet(H.body_of(bm))
+        t = H.render(nb)
+        ins = [c for c in H.walk(nb) if c.get("k") == "mcall" and c["m"] == "insert" and len(c.get("args", [])) == 2]
+        kv = [(DT.canon_text(c["args"][0]), DT.canon_text(c["args"][1])) for c in ins]
+        m_ = re.fullmatch(r"self\.stack\[(\w+)\]", kv[0][0]) if len(kv) == 1 else None
+        ok = "step_by(2)" in t and m_ is not None and kv[0][1] == "self.stack[(%s + 1)]" % m_.group(1)
+        R.ob("vm-operand-order", "build_map takes key = stack[i], value = stack[i + 1], i stepping by 2", ok, "inserts %s; step_by(2): %s" % (kv, "step_by(2)" in t), F.loc(bm))
     # ---- (ii) literal kinds ---------------------------------------------------------------------------------------------------------------
     for var, ctor in sorted(LITERALS.items()):
         oks, r = paths(var)
